@@ -45,7 +45,7 @@ pub fn gen_libs(rng: &mut Rng, nlibs: usize) -> Vec<GenLib> {
             let path = if rng.chance(1, 4) { format!("{}::sub::m{}", ns, j) } else { format!("{}::m{}", ns, j) };
             let mut src = String::new();
             if rng.chance(1, 2) {
-                src.push_str(&format!("#! module {} of library {}\n#! second doc line\n\n", j, k));
+                src.push_str(&format!("#! module {} of library {}{}\n#! second doc line{}\n\n", j, k, doc_tail(rng), doc_tail(rng)));
             }
             // importable modules: earlier modules of this library and modules of earlier libraries
             let mut importable: Vec<(String, Vec<String>)> = modules.iter().map(|m| (m.path.clone(), m.exports.clone())).collect();
@@ -77,6 +77,9 @@ pub fn gen_libs(rng: &mut Rng, nlibs: usize) -> Vec<GenLib> {
                     let f = rng.pick(ex).clone();
                     let alias = format!("re{}_{}", exports.len(), f);
                     if rng.chance(1, 2) {
+                        if rng.chance(1, 3) {
+                            src.push_str(&format!("#! procedure f re-exported as {}{}\n", alias, doc_tail(rng)));
+                        }
                         src.push_str(&format!("export.{}::{}->{}\n", short, f, alias));
                         exports.push(alias);
                     } else if !exports.contains(&f) {
@@ -93,7 +96,7 @@ pub fn gen_libs(rng: &mut Rng, nlibs: usize) -> Vec<GenLib> {
                 let name = if exported { format!("f{}_{}_{}", k, j, n) } else { format!("internal{}", n) };
                 let locals = if rng.chance(1, 3) { rng.range(1, 4) as u32 } else { 0 };
                 if exported && rng.chance(1, 2) {
-                    src.push_str(&format!("#! procedure {} of module {}\n", name, path));
+                    src.push_str(&format!("#! procedure {} of module {}{}\n", name, path, doc_tail(rng)));
                 }
                 src.push_str(&format!("{}.{}{}\n", if exported { "export" } else { "proc" }, name, if locals > 0 { format!(".{}", locals) } else { String::new() }));
                 let cfg = body_cfg(rng);
@@ -189,4 +192,17 @@ pub fn libs_to_json(libs: &[GenLib]) -> Value {
             "modules": l.modules.iter().map(|m| json!({"path": m.path, "source": m.source})).collect::<Vec<_>>(),
         }))
         .collect::<Vec<_>>())
+}
+
+/// the variable part of a doc comment: plain, non-ASCII (2-, 3- and 4-byte UTF-8 sequences), long
+fn doc_tail(rng: &mut Rng) -> String {
+    match rng.below(8) {
+        0 | 1 => String::new(),
+        2 => " - plain ascii text, with punctuation: (a, b) -> [c]".to_string(),
+        3 => " \u{2014} na\u{ef}ve caf\u{e9} \u{2192} r\u{e9}sum\u{e9}".to_string(),
+        4 => " \u{6f22}\u{5b57}\u{30c6}\u{30b9}\u{30c8}".to_string(),
+        5 => " \u{1f680}\u{1f680} x \u{1d54f}".to_string(),
+        6 => format!(" {}", "long ".repeat(rng.range(20, 90) as usize)),
+        _ => format!(" \u{e9}{}", "\u{e9}".repeat(rng.range(1, 60) as usize)),
+    }
 }
